@@ -135,10 +135,14 @@ def make_world(proto, db, **agent_kw):
         kw.setdefault("community", proto.get("community", "public").encode("ascii"))
     agent = vagent.Agent(db, **kw)
     client = Client(
-        "192.0.2.1", creds(proto), sender=agent,
+        "192.0.2.1", creds(proto.get("via") or proto), sender=agent,
         context_name=bytes.fromhex(proto.get("ctx_name", "")),
         engine_id=bytes.fromhex(proto.get("ctx_engine", "")),
     )
+    if proto.get("via"):
+        # history: created for another protocol version / community, then
+        # permanently re-configured before use
+        client.configure(credentials=creds(proto))
     return agent, client
 
 
